@@ -44,6 +44,9 @@ MODELS_C06 = ["m2_writer_vs_close", "m6_writer_with_credit_vs_close", "m9_writer
 MODELS_C04 = ["m1_writer_vs_acknowledge", "m3_two_writes_vs_acknowledge", "m8_three_writes_two_acknowledges", "m11_writer_vs_two_granting_threads", "m19_bridge_waits_for_credit_vs_acknowledge"]
 # the bridge parked on credit is woken by a grant and by a close (part of C13's decision: sub-poll interleavings)
 MODELS_C13 = ["m19_bridge_waits_for_credit_vs_acknowledge", "m20_bridge_waits_for_credit_vs_close", "m21_bridge_vs_acknowledge_vs_close"]
+# every accepted write is exactly one Push on the queue, in order, and takes exactly one unit of credit (part of C02's
+# decision: a credit that is lost or counted twice under a racing grant ends in an overrun, a Reset and truncated data)
+MODELS_C02 = ["m3_two_writes_vs_acknowledge", "m8_three_writes_two_acknowledges", "m12_push_frames_vs_two_granting_threads"]
 # credit conservation under racing grants (part of C03's decision)
 MODELS_C03 = ["m1_writer_vs_acknowledge", "m3_two_writes_vs_acknowledge", "m4_writer_vs_acknowledge_vs_close", "m8_three_writes_two_acknowledges"]
 
